@@ -271,6 +271,17 @@ def mustcall(ctx):
                 ro = return_origin(b)
                 mp = [c for c in ro.calls if strip_generics(cname(c)).endswith('Result::map')]
                 ok = len(mp) == 1 and any(c is fb[0][1] for c in origin(b, mp[0]['args'][0]).calls) and not ok_return_blocks(b)
+            if not ok:
+                # `match res { Ok(()) => Ok(writer), Err(e) => Err(e) }` further down
+                for sbb in sorted(b.live_blocks()):
+                    if b.term(sbb)['k'] != 'switch' or b.is_cleanup(sbb):
+                        continue
+                    si = b.switch_info(sbb)
+                    if si.get('kind') == 'enum' and si.get('adt') == 'core::result::Result' and any(c is fb[0][1] for c in origin(b, si['place']).calls):
+                        okb = si['variants'].get('Ok', si['otherwise'] if 'Ok' in (si.get('otherwise_variants') or []) else None)
+                        erb = si['variants'].get('Err', si['otherwise'] if 'Err' in (si.get('otherwise_variants') or []) else None)
+                        oks_ = ok_return_blocks(b)
+                        ok = okb is not None and erb is not None and bool(oks_) and all(b.dominates(okb, o) or o == okb for o in oks_) and all_paths_err(b, erb)
         ctx.ob('MUSTCALL', 'into_inner', ok, short_loc(b.span), 'into_inner returns the sink only after finish_block() succeeded (`?`, or its result mapped): %s' % ok)
         # ... and when that flush fails the caller gets the Err: into_inner consumes the writer, so whatever it leaves
         # behind is dropped on the way out - with the block still pending and the sink still inside, Drop flushes again into
